@@ -291,6 +291,7 @@ theorem grp_rulePhase (sh : Shared) (diff : Differ) (hd : GoodDiffer diff) (hid 
       w2.addrs = a1.addrs ∧ w2.svcs = a1.svcs ∧ w2.sgroups = a1.sgroups ∧ w2.name = a1.name ∧
       w2.groups = vg'.groups ∧ vg'.groups.map (·.name) = a1.groups.map (·.name) ∧ vg'.addrs = a1.addrs ∧
       SimG sh (RefG b) (planState diff a b) vg' ∧
+      (∀ n, n ∉ a.groups.map (·.name) → lookupGrp vg'.groups n = lookupGrp a1.groups n) ∧
       w2.rules.length = b.rules.length ∧ (ruleNames w2.rules).Nodup ∧
       (∀ (t : Nat) (r : Rule), w2.rules[t]? = some r →
         RuleLike r (adaptRule (planState diff a b) ((bRulesOf a b).getD t default))) ∧
@@ -461,8 +462,15 @@ theorem grp_rulePhase (sh : Shared) (diff : Differ) (hd : GoodDiffer diff) (hid 
       simp only [Bool.and_eq_true, beq_iff_eq] at h
       exact h.1.1.1)
     htg hord
+  have hother : ∀ n, n ∉ a.groups.map (·.name) → lookupGrp vg'.groups n = lookupGrp a1.groups n := by
+    apply runs_grpMem_other sh _ (cs.filter Cmd.isGrpMem) a1 vg' ?_ hgrun
+    intro c hc
+    obtain ⟨hcm, hci⟩ := List.mem_filter.mp hc
+    rcases hkind c hcm with ⟨h1, h2⟩ | h
+    · exact ⟨h1, by rw [stM_aGrp_names] at h2; exact h2⟩
+    · rw [onRules_not_grpMem h] at hci; cases hci
   refine ⟨w2, vg', ?_, u1.trans step.addrs, u2.trans step.svcs, u4.trans step.sgroups, u5.trans step.name, u3, hgn1,
-    step.addrs, s2, by rw [hlen]; simp [bRulesOf_length], hnd, ?_, hsettled⟩
+    step.addrs, s2, hother, by rw [hlen]; simp [bRulesOf_length], hnd, ?_, hsettled⟩
   · rw [hout]
     apply runs_of_split sh cs a1 vg' w2 _ hgrun (by rw [hf1]; exact hw2)
     intro c hc
